@@ -34,7 +34,9 @@ RULE = ('seeded generator: produce requests with topics as bytes of length 0..30
         'tampered / random replies; send/reply histories through KafkaSerializerSink -> KafkaTransportSink with the real TagPool '
         'or scripted tags (int32 edges, duplicates), replies in any order, duplicated, unknown ids, short replies; sequences of '
         '2..5 requests of shrinking/equal/growing size through one sink instance (each queued frame parsed strictly: declared '
-        'size = bytes written, nothing stale or trailing). '
+        'size = bytes written, nothing stale or trailing); transport-level histories: ClientTimeoutSink -> KafkaSerializerSink -> '
+        'KafkaTransportSink with its real send/receive loops on a virtual clock against a fake broker that answers on command: '
+        'requests time out in flight / while queued / at the call, new requests on the same connection, late replies. '
         'non-trivial = the implementation produced bytes / a decoded value / a routing decision (no exception); distinct by '
         'canonical JSON of (case, observation)')
 TRUSTED = ['zlib.crc32 (the implementation uses it; the harness uses it as the CRC oracle and to cross-check Model/Crc32.v)',
@@ -45,11 +47,14 @@ ASSUMPTIONS = ['struct.pack/unpack and BytesIO.read semantics of CPython as tran
                'and are outside the model',
                'payload lists above ~100 KiB in total are checked against the Python parser only, not evaluated inside Coq',
                'routing: the tag returned by TagPool.get() is an input of the model (uniqueness of outstanding tags is C11); '
-               'timeouts, shutdown and the socket loops are not part of this property']
+               'whether a deadline fires before or after the frame left the send queue is recorded and passed to the model '
+               '(TTimeout / TUnsent); shutdown and connection loss are not part of this property',
+               'transport cases: scales.sink.GLOBAL_TIMER_QUEUE / scales.sink.time are replaced by a virtual clock for the '
+               'duration of a case (ClientTimeoutSink is otherwise unmodified); greenlets are settled with gevent.sleep(0)']
 
 MANIFEST = {
     'text': ('Theorems C15_request_wf, C15_request_total, C15_crc_continuation, C15_produce_resp, C15_metadata_resp, '
-             'C15_metadata_resp_distinct, C15_routing, C15_routing_request, C15_fuel_irrelevant hold for every topic, partition, acks value, payload list, correlation id, client id, '
+             'C15_metadata_resp_distinct, C15_routing, C15_routing_request, C15_routing_timeouts, C15_late_reply, C15_fuel_irrelevant hold for every topic, partition, acks value, payload list, correlation id, client id, '
              'every encodable produce/metadata response and every history of sends and replies (no size or length bound) of the '
              'Gallina transcription of the Kafka v0 writer/readers and correlation-id table, against an independently written strict '
              'v0 request parser and reference response encoders; the transcription, the parser, the encoders and the bitwise CRC-32 '
@@ -591,6 +596,34 @@ def gen_sequence(r):
   return {'kind': 'route', 'cid': r.choice(CIDS), 'pool': 'real', 'seq': shape, 'ops': ops}
 
 
+def gen_transport(r):
+  """ClientTimeoutSink -> KafkaSerializerSink -> KafkaTransportSink (real send/receive loops) against a fake broker
+  that answers when told to, on a virtual clock: requests time out in flight or while still queued, new requests are
+  issued on the same connection, late replies arrive."""
+  ops = []
+  nsend = 0
+  for _ in range(r.choice([3, 5, 7, 9, 12])):
+    k = r.random()
+    if k < 0.4 or nsend == 0:
+      call = {'put': {'topic': rbytes_spec(r, r.choice([1, 3, 8])), 'partition': r.choice([0, 1, 3, r32(r)]), 'acks': r.choice([1, 0, -1]),
+                      'payloads': [rbytes_spec(r, r.choice([0, 1, 10, 40])) for _ in range(r.choice([0, 1, 1, 2]))]}}
+      if r.random() < 0.04:
+        call['put']['acks'] = 2 ** 15
+      op = {'op': 'send', 'k': nsend, 'call': call, 'timeout': r.choice([None, 0.05, 0.1, 0.1, 0.5, 0.5, 5, 5, -1, 0])}
+      if r.random() < 0.15:
+        op['nosettle'] = True
+      nsend += 1
+      ops.append(op)
+    elif k < 0.65:
+      ops.append({'op': 'advance', 'dt': r.choice([0.01, 0.06, 0.06, 0.2, 0.2, 1, 10])})
+    else:
+      ops.append({'op': 'reply', 'to': r.randrange(nsend)})
+  for k in r.sample(range(nsend), nsend):
+    if r.random() < 0.5:
+      ops.append({'op': 'reply', 'to': k})
+  return {'kind': 'transport', 'cid': r.choice(CIDS[:9]), 'ops': ops}
+
+
 def gen_cases(tier, seed):
   q = tier == 'quick'
   out = []
@@ -697,6 +730,23 @@ def gen_cases(tier, seed):
       {'op': 'reply', 'to': 1, 'presp': [[hx(b's'), [[0, 0, 5]]]]},
       {'op': 'reply', 'to': 0, 'presp': [[hx(b'long'), [[0, 0, 6]]]]},
   ]})
+  for late_first in (True, False):
+    out.append({'kind': 'transport', 'cid': None, 'ops': [
+        {'op': 'send', 'k': 0, 'timeout': 5, 'call': {'put': {'topic': hx(b'warm'), 'partition': 3, 'acks': 1, 'payloads': [hx(b'x')]}}},
+        {'op': 'reply', 'to': 0},
+        {'op': 'send', 'k': 1, 'timeout': 0.1, 'call': {'put': {'topic': hx(b'slow'), 'partition': 3, 'acks': 1, 'payloads': [hx(b'payload-one')]}}},
+        {'op': 'advance', 'dt': 0.3},
+        {'op': 'send', 'k': 2, 'timeout': 5, 'call': {'put': {'topic': hx(b'fast'), 'partition': 3, 'acks': 1, 'payloads': [hx(b'payload-two')]}}},
+        {'op': 'reply', 'to': 1 if late_first else 2},
+        {'op': 'reply', 'to': 2 if late_first else 1},
+        {'op': 'send', 'k': 3, 'timeout': 0.1, 'nosettle': True, 'call': {'put': {'topic': hx(b'unsent'), 'partition': 0, 'acks': 1, 'payloads': []}}},
+        {'op': 'advance', 'dt': 0.2},
+        {'op': 'send', 'k': 4, 'timeout': -1, 'call': {'put': {'topic': hx(b'past'), 'partition': 0, 'acks': 1, 'payloads': []}}},
+        {'op': 'send', 'k': 5, 'timeout': None, 'call': {'put': {'topic': hx(b'nodl'), 'partition': 0, 'acks': 1, 'payloads': []}}},
+        {'op': 'advance', 'dt': 100},
+        {'op': 'reply', 'to': 5},
+        {'op': 'reply', 'to': 3},
+    ]})
   out.append({'kind': 'route', 'cid': None, 'pool': 'scripted', 'ops': [
       {'op': 'send', 'k': 0, 'tag': -2 ** 31, 'call': {'meta': []}},
       {'op': 'send', 'k': 1, 'tag': 2 ** 31 - 1, 'call': {'meta': []}},
@@ -737,10 +787,12 @@ def gen_cases(tier, seed):
       b, t = gen_mresp(r)
       out.append({'kind': 'mresp', 'brokers': b, 'topics': t, 'corr': r32(r), 'mtype': r.choice([3] * 12 + [0, 7]),
                   'mut': gen_mut(r) if r.random() < 0.3 else None})
-    elif k < 0.95:
+    elif k < 0.93:
       out.append(gen_route(r))
-    else:
+    elif k < 0.96:
       out.append(gen_sequence(r))
+    else:
+      out.append(gen_transport(r))
   return _spread(out)
 
 
@@ -1016,6 +1068,208 @@ def _run_route(case):
   return {'ops': out}
 
 
+def _broker_reply(frame, k):
+  """What the fake broker answers to request frame k: the correlation id it found, one topic/partition, offset 1000+k."""
+  d = py_parse_request(frame)
+  topic, parts = d['topics'][0]
+  body = py_enc_produce_response([(topic, [(parts[0][0], 0, 1000 + k)])])
+  return struct.pack('!i', d['corr']) + body
+
+
+def _run_transport(case):
+  import gevent
+  import gevent.queue
+  import scales.sink as ssink
+  import scales.mux.sink as msink
+  from scales.message import Deadline
+  S = _S
+  clock = {'now': 1000.0, 'seq': 0}
+  timers = []
+  queued = []            # frames put on the send queue (in order)
+  deliveries = []        # (k, msg) seen by the callers
+
+  class FakeTimerQueue(object):
+    def Schedule(self, deadline, action):
+      clock['seq'] += 1
+      ent = [deadline, clock['seq'], False, action]
+      timers.append(ent)
+
+      def cancel():
+        ent[2] = True
+        ent[3] = None
+      return cancel
+
+  class FakeTime(object):
+    @staticmethod
+    def time():
+      return clock['now']
+
+  class RecQueue(gevent.queue.Queue):
+    def put(self, item, *a, **kw):
+      queued.append(bytes(item[0]))
+      return gevent.queue.Queue.put(self, item, *a, **kw)
+
+  class BrokerSocket(object):
+    host, port = 'fakebroker', 9092
+
+    def __init__(self):
+      self.to_client = gevent.queue.Queue()
+      self.rbuf = b''
+      self.wbuf = b''
+      self.received = []      # complete frames (with size prefix) in arrival order
+      self.raw = b''
+
+    def open(self):
+      pass
+
+    def close(self):
+      self.to_client.put(b'')
+
+    def isOpen(self):
+      return True
+
+    def write(self, data):
+      self.raw += bytes(data)
+      self.wbuf += bytes(data)
+      while len(self.wbuf) >= 4:
+        sz, = struct.unpack('!i', self.wbuf[:4])
+        if sz < 0 or len(self.wbuf) < 4 + sz:
+          break
+        self.received.append(self.wbuf[:4 + sz])
+        self.wbuf = self.wbuf[4 + sz:]
+
+    def read(self, sz):
+      if not self.rbuf:
+        self.rbuf = self.to_client.get()
+      ret, self.rbuf = self.rbuf[:sz], self.rbuf[sz:]
+      return ret
+
+    def readAll(self, sz):
+      buf = b''
+      while len(buf) < sz:
+        chunk = self.read(sz - len(buf))
+        if not chunk:
+          raise EOFError()
+        buf += chunk
+      return buf
+
+  class Terminal(S['ClientMessageSink']):
+    def AsyncProcessRequest(self, sink_stack, msg, stream, headers):
+      raise NotImplementedError()
+
+    def AsyncProcessResponse(self, sink_stack, context, stream, msg):
+      deliveries.append((context, msg))
+
+  class Provider(object):
+    def __init__(self, sink):
+      self.sink = sink
+
+    def CreateSink(self, properties):
+      return self.sink
+
+  def settle():
+    for _ in range(12):
+      gevent.sleep(0)
+
+  def canon_delivery(k, m):
+    if m is None:
+      return {'k': k, 'value': {'none': True}}
+    if m.error is not None:
+      return {'k': k, 'err': type(m.error).__name__}
+    return {'k': k, 'value': _canon_value(m.return_value)}
+
+  saved = (ssink.GLOBAL_TIMER_QUEUE, ssink.time, msink.Queue)
+  ssink.GLOBAL_TIMER_QUEUE = FakeTimerQueue()
+  ssink.time = FakeTime
+  msink.Queue = RecQueue
+  sock = BrokerSocket()
+  transport = None
+  out = []
+  try:
+    transport = S['KafkaTransportSink'](sock, 'c15')
+    if case.get('cid') is not None:
+      transport.CLIENT_ID = case['cid']
+    props = {'label': 'c15'}
+    ser = S['KafkaSerializerSink'](Provider(transport), None, props)
+    top = ssink.ClientTimeoutSink(Provider(ser), None, props)
+    transport.Open().get()
+    term = Terminal()
+    frame_of = {}          # k -> frame queued for that request
+    order = []             # requests in send-queue order that have not been seen on the wire yet
+    written = {}           # k -> index in sock.received
+    replied = set()
+
+    def note_written(start):
+      ks = []
+      for i in range(start, len(sock.received)):
+        hit = next((j for j, kk in enumerate(order) if frame_of[kk] == sock.received[i]), None)
+        if hit is None:
+          ks.append(None)
+        else:
+          kk = order[hit]
+          del order[:hit + 1]
+          written[kk] = i
+          ks.append(kk)
+      return ks
+    for op in case['ops']:
+      nq, nd, nr = len(queued), len(deliveries), len(sock.received)
+      o = {}
+      if op['op'] == 'send':
+        p = op['call']['put']
+        msg = _put_msg(expand(p['topic']), [expand(x) for x in p['payloads']], p['acks'], p['partition'])
+        if op.get('timeout') is not None:
+          msg.properties[Deadline.KEY] = clock['now'] + op['timeout']
+        stack = S['ClientMessageSinkStack']()
+        stack.Push(term, op['k'])
+        try:
+          top.AsyncProcessRequest(stack, msg, None, {})
+        except Exception as e:
+          o['exc'] = type(e).__name__
+        if len(queued) == nq + 1:
+          frame_of[op['k']] = queued[nq]
+          order.append(op['k'])
+          o['tag'] = msg.properties.get('__Tag')
+        if not op.get('nosettle'):
+          settle()
+      elif op['op'] == 'advance':
+        clock['now'] += op['dt']
+        due = sorted([t for t in timers if not t[2] and t[0] <= clock['now']], key=lambda t: (t[0], t[1]))
+        o['written_before'] = sorted(written)
+        for t in due:
+          if not t[2]:
+            t[2] = True
+            cb, t[3] = t[3], None
+            cb()
+        settle()
+      else:
+        f = frame_of.get(op['to'])
+        if f is not None and op['to'] in written and op['to'] not in replied:
+          try:
+            data = _broker_reply(f, op['to'])
+          except (ParseError, IndexError, KeyError):
+            data = None
+          if data is not None:
+            replied.add(op['to'])
+            o['data'] = data.hex()
+            sock.to_client.put(struct.pack('!i', len(data)) + data)
+            settle()
+      o['now'] = clock['now']
+      o['queued'] = [x.hex() for x in queued[nq:]]
+      o['written'] = [x.hex() for x in sock.received[nr:]]
+      o['written_k'] = note_written(nr)
+      o['delivered'] = [canon_delivery(k, m) for k, m in deliveries[nd:]]
+      out.append(o)
+    return {'ops': out, 'wire_ok': sock.raw == b''.join(sock.received) + sock.wbuf, 'unframed': sock.wbuf.hex()}
+  finally:
+    try:
+      if transport is not None:
+        transport.Close()
+      settle()
+    except Exception:
+      pass
+    ssink.GLOBAL_TIMER_QUEUE, ssink.time, msink.Queue = saved
+
+
 def run_impl(case):
   setup()
   k = case['kind']
@@ -1065,6 +1319,8 @@ def run_impl(case):
     return o
   if k == 'route':
     return _run_route(case)
+  if k == 'transport':
+    return _run_transport(case)
   raise ValueError(k)
 
 
@@ -1294,6 +1550,76 @@ def monitor(case, obs):
         else:
           if o['o'] == 'deliver':
             v.append(('route-delivered-unknown', where + 'reply with correlation id %d (no such pending request) delivered to caller %r' % (corr, o['k'])))
+  elif k == 'transport':
+    cidb = _cid_bytes(case.get('cid'))
+    info = {}
+    result = {}
+    outstanding = {}          # correlation id -> request outstanding at the broker
+    replied = set()
+    if not obs.get('wire_ok', True) or obs.get('unframed'):
+      v.append(('wire-framing', 'bytes written to the socket are not a sequence of size-prefixed frames (%d stray bytes)' % (len(obs.get('unframed', '')) // 2)))
+    for i, (op, o) in enumerate(zip(case['ops'], obs['ops'])):
+      where = 'op %d: ' % i
+      now = o['now']
+      before = dict(result)
+      if 'exc' in o:
+        v.append(('request-rejected', where + 'AsyncProcessRequest raised %s' % o['exc']))
+      if op['op'] == 'send':
+        p = op['call']['put']
+        topic, payloads = expand(p['topic']), [expand(x) for x in p['payloads']]
+        adm, _b = _put_admissible(topic, payloads, p['acks'], p['partition'])
+        info[op['k']] = {'topic': topic, 'payloads': payloads, 'p': p, 'adm': adm, 'tag': o.get('tag'),
+                         'deadline': None if op.get('timeout') is None else now + op['timeout']}
+      for kk, fh in zip(o['written_k'], o['written']):
+        frame = bytes.fromhex(fh)
+        if kk is None or kk not in info:
+          v.append(('wire-unknown-frame', where + 'a frame that no request queued was written'))
+          continue
+        q = info[kk]
+        _check_frame_put(v, frame, q['tag'], cidb, q['topic'], q['payloads'], q['p']['acks'], q['p']['partition'], where)
+        corr = int.from_bytes(frame[8:12], 'big', signed=True)
+        if corr in outstanding and outstanding[corr] != kk:
+          v.append(('corr-id-reused-in-flight', where + 'request %d was written with correlation id %d while request %d with the same id is still '
+                    'outstanding at the broker (it owes a reply)' % (kk, corr, outstanding[corr])))
+        outstanding[corr] = kk
+        q['corr'] = corr
+      if op['op'] == 'reply' and 'data' in o:
+        corr = int.from_bytes(bytes.fromhex(o['data'])[:4], 'big', signed=True)
+        replied.add(op['to'])
+        if outstanding.get(corr) == op['to']:
+          del outstanding[corr]
+      for d in o['delivered']:
+        kk = d['k']
+        if kk not in info:
+          v.append(('route-delivered-unknown', where + 'result for unknown caller %r' % kk))
+          continue
+        if kk in result:
+          v.append(('caller-duplicate-result', where + 'caller %d received a second result %s' % (kk, C.canon(d)[:200])))
+          continue
+        result[kk] = d
+        q = info[kk]
+        if d.get('err') == 'TimeoutError':
+          if q['deadline'] is None or q['deadline'] > now:
+            v.append(('timeout-spurious', where + 'caller %d got TimeoutError at %.3f, deadline %r' % (kk, now, q['deadline'])))
+        elif 'err' in d:
+          if q['adm']:
+            v.append(('request-rejected', where + 'caller %d got error %s for a serialisable request' % (kk, d['err'])))
+        else:
+          want = {'produce': [[q['topic'].hex(), q['p']['partition'], 0, 1000 + kk]]}
+          if d.get('value') != want or kk not in replied:
+            other = [j for j, qq in info.items() if j != kk and d.get('value') == {'produce': [[qq['topic'].hex(), qq['p']['partition'], 0, 1000 + j]]}]
+            if other:
+              v.append(('route-wrong-recipient', where + 'caller %d received the reply the broker generated for request %d: %s' %
+                        (kk, other[0], C.canon(d.get('value'))[:200])))
+            else:
+              v.append(('response-decoded-wrong', where + 'caller %d received %s, broker encoded %s' % (kk, C.canon(d.get('value'))[:200], C.canon(want)[:200])))
+      if op['op'] == 'reply' and 'data' in o and op['to'] not in before and op['to'] not in result:
+        v.append(('route-not-delivered', where + 'the broker replied to request %d (correlation id %d) but its caller, still waiting, received nothing' %
+                  (op['to'], int.from_bytes(bytes.fromhex(o['data'])[:4], 'big', signed=True))))
+      if op['op'] == 'advance':
+        for kk, q in info.items():
+          if q['deadline'] is not None and q['deadline'] <= now and kk not in result:
+            v.append(('timeout-missing', where + 'deadline %.3f of caller %d passed at %.3f without a result' % (q['deadline'], kk, now)))
   return v
 
 
@@ -1453,6 +1779,58 @@ def to_coq(case, obs):
         else:
           exp.append('OReplyRaise')
     return 'CRoute %s %s %s' % (_cid(case.get('cid')), C.lst(ops), C.lst(exp))
+  if k == 'transport':
+    ops = []
+    exp = []
+    tags = {}
+    calls = {}
+    for op, o in zip(case['ops'], obs['ops']):
+      if 'exc' in o:
+        exp.append('VRaise')
+      if op['op'] == 'send':
+        p = op['call']['put']
+        ct = _call_put(expand(p['topic']), [expand(x) for x in p['payloads']], p['acks'], p['partition'])
+        tags[op['k']] = o.get('tag') if isinstance(o.get('tag'), int) else 0
+        dl = list(o['delivered'])
+        if len(o['queued']) == 1:
+          ops.append('TOp (RSend %s %s %s)' % (_z(op['k']), _z(tags[op['k']]), ct))
+          exp.append('VSent %s' % _bl(bytes.fromhex(o['queued'][0])))
+        elif dl and dl[0].get('err') == 'TimeoutError':
+          d = dl.pop(0)
+          ops.append('TTimeout %s' % _z(d['k']))
+          exp.append('VTimeout %s' % _z(d['k']))
+        elif dl and 'err' in dl[0]:
+          d = dl.pop(0)
+          ops.append('TOp (RSend %s %s %s)' % (_z(op['k']), _z(0), ct))
+          exp.append('VSerError %s' % _z(d['k']))
+        for d in dl:                                  # anything else is not in the model: forces a divergence
+          exp.append('VRaise')
+        for _x in o['queued'][1:]:
+          exp.append('VRaise')
+      elif op['op'] == 'advance':
+        for d in o['delivered']:
+          if d.get('err') == 'TimeoutError':
+            if d['k'] in o['written_before']:
+              ops.append('TTimeout %s' % _z(d['k']))
+            else:
+              ops.append('TUnsent %s %s' % (_z(d['k']), _z(tags.get(d['k'], 0))))
+            exp.append('VTimeout %s' % _z(d['k']))
+          else:
+            exp.append('VRaise')
+        for _x in o['queued']:
+          exp.append('VRaise')
+      elif 'data' in o:
+        ops.append('TOp (RReply %s)' % _bl(bytes.fromhex(o['data'])))
+        dl = o['delivered']
+        if not dl:
+          exp.append('VNothing')
+        else:
+          exp.append('VDeliver %s %s' % (_z(dl[0]['k']), _oreply(dl[0])))
+          for d in dl[1:]:
+            exp.append('VRaise')
+      elif o['delivered']:
+        exp.append('VRaise')
+    return 'CTransport %s %s %s' % (_cid(case.get('cid')), C.lst(ops), C.lst(exp))
   raise ValueError(k)
 
 
@@ -1470,6 +1848,8 @@ def nontrivial(case, obs):
     return 'value' in obs
   if k == 'route':
     return any(o.get('o') in ('deliver', 'drop') for o in obs['ops'])
+  if k == 'transport':
+    return any(o['delivered'] for o in obs['ops'])
   return False
 
 
@@ -1520,4 +1900,21 @@ def stats(cases, obs):
           out['route:deliver:%s' % ('value' if 'value' in x else 'decode-error')] += 1
     elif k == 'crc':
       out['crc'] += 1
+    elif k == 'transport':
+      done = set()
+      wr = set()
+      for op, x in zip(c['ops'], o.get('ops', [])):
+        wr.update(kk for kk in x['written_k'] if kk is not None)
+        for d in x['delivered']:
+          if d.get('err') == 'TimeoutError':
+            out['transport:timeout:%s' % ('at-call' if op['op'] == 'send' else 'in-flight' if d['k'] in x.get('written_before', []) else 'unsent')] += 1
+          elif 'err' in d:
+            out['transport:ser-error'] += 1
+          else:
+            out['transport:reply-delivered'] += 1
+          done.add(d['k'])
+        if op['op'] == 'reply' and 'data' in x and not x['delivered']:
+          out['transport:late-reply-absorbed'] += 1
+        if op['op'] == 'send' and x['queued'] and any(d.get('err') == 'TimeoutError' for y in o['ops'] for d in y['delivered']):
+          pass
   return {'branch_distribution': dict(sorted(out.items())), 'produce_payload_count_histogram': dict(npay)}
